@@ -388,6 +388,10 @@ func (self *Runtime) InvokePipeline(src string, srcPath string, psid string,
 	// Expand env vars in invocation source and instantiate.
 	src = os.ExpandEnv(src)
 	readOnly := false
+	// A signal must not end the process when the directory has content but
+	// not yet the files which are required to reattach to it.
+	util.EnterCriticalSection()
+	defer util.ExitCriticalSection()
 	postsrc, _, pipestance, err := self.instantiatePipeline([]byte(src), srcPath, psid,
 		pipestancePath, mroPaths,
 		mroVersion, envs, false, readOnly, context.Background())
